@@ -28,10 +28,10 @@ import (
 )
 
 type caseRec struct {
-	Shape, F, I, J int
-	Kind, Comp, Op string
-	Pos            int
-	Go, Truth      bool
+	Shape, F, Q, I, J int
+	Kind, Comp, Op    string
+	Pos               int
+	Go, Truth         bool
 }
 
 type casesFile struct {
@@ -152,18 +152,23 @@ func innerHash(h *store.TxHeader) [sha256.Size]byte {
 }
 
 type phist struct {
-	hdrs []*store.TxHeader
-	alhs [][sha256.Size]byte
-	aht  *ahtree.AHtree
+	hdrs  []*store.TxHeader
+	alhs  [][sha256.Size]byte
+	aht   *ahtree.AHtree // the tree the server answers from (leaf p foreign)
+	clean *ahtree.AHtree // the honest tree (headers before q embed its roots)
 }
 
 func foreignLeaf(seed int64) [sha256.Size]byte { return junk(seed, 99) }
 
-// buildPoison: chain of the same transactions build() commits; tree leaf p (0: none) is foreign.
-func buildPoison(dir string, shape []int, p int, seed int64) *phist {
-	aht, err := ahtree.Open(dir, ahtree.DefaultOptions())
+// buildPoison: chain of the same transactions build() commits; tree leaf p (0: none) is foreign in the tree whose roots the
+// headers embed from transaction q on.
+func buildPoison(dir string, shape []int, p, q int, seed int64) *phist {
+	vh.Must(os.MkdirAll(dir, 0755), "mkdir")
+	aht, err := ahtree.Open(filepath.Join(dir, "p"), ahtree.DefaultOptions())
 	vh.Must(err, "ahtree.Open")
-	h := &phist{aht: aht}
+	clean, err := ahtree.Open(filepath.Join(dir, "c"), ahtree.DefaultOptions())
+	vh.Must(err, "ahtree.Open")
+	h := &phist{aht: aht, clean: clean}
 	prev := storetrace.Genesis
 	for k := 1; k <= len(shape); k++ {
 		key := []byte(fmt.Sprintf("k%d", k))
@@ -179,7 +184,11 @@ func buildPoison(dir string, shape []int, p int, seed int64) *phist {
 			hdr.Metadata = store.NewTxMetadata()
 		}
 		if hdr.BlTxID > 0 {
-			hdr.BlRoot, err = aht.RootAt(hdr.BlTxID)
+			if k >= q {
+				hdr.BlRoot, err = aht.RootAt(hdr.BlTxID)
+			} else {
+				hdr.BlRoot, err = clean.RootAt(hdr.BlTxID)
+			}
 			vh.Must(err, "RootAt")
 		}
 		alh := hdr.Alh()
@@ -188,6 +197,8 @@ func buildPoison(dir string, shape []int, p int, seed int64) *phist {
 			leaf = foreignLeaf(seed)
 		}
 		_, _, err = aht.Append(leaf[:])
+		vh.Must(err, "aht.Append")
+		_, _, err = clean.Append(alh[:])
 		vh.Must(err, "aht.Append")
 		h.hdrs = append(h.hdrs, hdr)
 		h.alhs = append(h.alhs, alh)
@@ -402,13 +413,13 @@ func main() {
 			hists[k] = h
 			return h
 		}
-		phists := map[[2]int]*phist{}
-		getP := func(si, p int) *phist {
-			k := [2]int{si, p}
+		phists := map[[3]int]*phist{}
+		getP := func(si, p, q int) *phist {
+			k := [3]int{si, p, q}
 			if h, ok := phists[k]; ok {
 				return h
 			}
-			h := buildPoison(filepath.Join(*dir, fmt.Sprintf("p%d_%d", si, p)), cf.Shapes[si-1], p, *seed)
+			h := buildPoison(filepath.Join(*dir, fmt.Sprintf("p%d_%d_%d", si, p, q)), cf.Shapes[si-1], p, q, *seed)
 			phists[k] = h
 			return h
 		}
@@ -418,7 +429,7 @@ func main() {
 				if !mirrorChecked[c.Shape] {
 					// the mirror must produce exactly what the real store produces on the unpoisoned history
 					mirrorChecked[c.Shape] = true
-					H, M := get(c.Shape, cf.N+1), getP(c.Shape, 0)
+					H, M := get(c.Shape, cf.N+1), getP(c.Shape, 0, 1)
 					for a := 1; a <= cf.N; a++ {
 						for b := a; b <= cf.N; b++ {
 							rp, err := H.st.DualProof(H.hdrs[a-1], H.hdrs[b-1])
@@ -434,7 +445,7 @@ func main() {
 						}
 					}
 				}
-				P := getP(c.Shape, c.F)
+				P := getP(c.Shape, c.F, c.Q)
 				p := P.mirrorDual(c.I, c.J, c.Comp == "tblFromTree", c.F, *seed)
 				trusted := P.alhs[c.I-1]
 				var real bool
@@ -455,6 +466,8 @@ func main() {
 					cls := "foreign-leaf-between-source-tree-and-source"
 					if c.F == c.I {
 						cls = "foreign-leaf-at-source"
+					} else if uint64(c.F) <= S.BlTxID {
+						cls = "foreign-leaf-inside-source-tree" // the trusted header embeds the honest tree, the target a tree that differs inside it
 					}
 					switch {
 					case uint64(c.I) < T.BlTxID:
@@ -470,8 +483,8 @@ func main() {
 						cls += ":foreign-leaf-inside-target-tree"
 					}
 					res.Violate("store.VerifyDualProof:accepts-split-view:"+cls,
-						fmt.Sprintf("client trusting tx %d (BlTxID %d) accepted tx %d (BlTxID %d) whose binary-linking tree holds a foreign leaf at position %d, a transaction the client already holds in its chain (shape %v, %s)",
-							c.I, S.BlTxID, c.J, T.BlTxID, c.F, cf.Shapes[c.Shape-1], c.Comp), c)
+						fmt.Sprintf("client trusting tx %d (BlTxID %d) accepted tx %d (BlTxID %d) whose binary-linking tree holds a foreign leaf at position %d (embedded from tx %d on), a transaction the client already holds in its chain (shape %v, %s)",
+							c.I, S.BlTxID, c.J, T.BlTxID, c.F, c.Q, cf.Shapes[c.Shape-1], c.Comp), c)
 				}
 				if !real && !c.Truth {
 					res.Count("split-view-refused", 1)
@@ -556,6 +569,7 @@ func main() {
 		}
 		for _, h := range phists {
 			h.aht.Close()
+			h.clean.Close()
 		}
 		res.Distinct += len(cf.Cases)
 		res.Traces += len(cf.Cases)
